@@ -4,7 +4,7 @@ from .. import common, gen, oracle, modelio, pipefam, pool, cli
 from . import c01
 
 RULE = ("pile-up generator (20-45 extra TEs of one group stacked on one gene's flanks and body, on top of the C01 mixture); "
-        "EVERY cell of every result file is range-checked (finite, 0 <= v <= 1) for real groups and Total_TE_Density; "
+        "every fourth case in an output directory used before (same / extended / other genome id); EVERY cell of every result file is range-checked (finite, 0 <= v <= 1) for real groups and Total_TE_Density; "
         "non-trivial = same-group overlap present; distinct = canonical JSON of the case")
 
 
@@ -20,11 +20,36 @@ def range_failures(case, rep):
     return out
 
 
+def bitexact_failures(case, rep):
+    """stored cell == binary32(N / D) for the brute-force pair (N, D) of the statement, D < 2^24 (both operands exact in binary32;
+    rounding the binary64 quotient to binary32 is the correctly rounded quotient, 53 >= 2*24+2)"""
+    import numpy as np
+    if not rep.get("ok"):
+        return 0, 0, None
+    cells, _files, _p = pipefam.impl_cells(rep)
+    spec = oracle.spec_cells(case, gen.windows_list(*case["windows"]))
+    n_checked = n_bad = 0
+    first = None
+    for k, (n, d) in spec.items():
+        if k in cells and 0 < d < 2 ** 24:
+            n_checked += 1
+            want = float(np.float32(n / d))
+            if cells[k] != want:
+                n_bad += 1
+                first = first or {"key": list(k), "N": n, "D": d, "stored": cells[k], "binary32(N/D)": want}
+    return n_checked, n_bad, first
+
+
 def run(chk):
     pipefam.standard_obligations(chk, "C03.v")
     n = 100 if chk.tier == "quick" else 2500
     r = chk.rng("cases")
     cases = pipefam.load_corpus("C03") + [gen.gen_pileup(r) for _ in range(n)]
+    # every fourth case runs in an output directory already used for another pair (same chromosome names) under the same
+    # genome id, an id that extends it, or an unrelated one
+    for i, c in enumerate(cases):
+        if i % 4 == 3 and "before" not in c:
+            c["before"] = {"case": {k: cases[i - 1][k] for k in ("genes", "tes", "windows")}, "genome": ["G", "G_v2", "H"][(i // 4) % 3]}
     results = c01.evaluate(chk, cases, tag="c03")
     nv = 0
     ncells = 0
@@ -37,8 +62,16 @@ def run(chk):
             if nv <= 2:
                 small = pipefam.shrink(c, lambda cc: bool(range_failures(cc, pipefam.run_impl([cc])[0])))
                 chk.violation("a density of a real group is not a finite number in [0,1]",
-                              {"case": {k: small[k] for k in ("genes", "tes", "windows")},
+                              {"case": {k: small[k] for k in ("genes", "tes", "windows", "before") if k in small},
                                "failures": range_failures(small, pipefam.run_impl([small])[0])[:5] or rf[:5]})
+    nb_checked = nb_bad = 0
+    nb_first = None
+    for c, rep, pf, diffs in results:
+        a, b, f = bitexact_failures(c, rep)
+        nb_checked += a; nb_bad += b; nb_first = nb_first or f
+    chk.oblige("every stored cell of a real group is exactly binary32(N/D) for the statement's (N, D) (%d cells, %d differ): ties Props/C03float.v to the stored numbers" % (nb_checked, nb_bad),
+               nb_bad == 0, json.dumps(nb_first))
+    chk.cov["cells_bit_exact"] = nb_checked
     diff_only = [(c, d) for c, rep, pf, d in results if d and not range_failures(c, rep)]
     chk.oblige("correspondence model = implementation on every case (name-keyed cells, float rule)", not diff_only,
                json.dumps(diff_only[0][1])[:2000] if diff_only else "")
